@@ -1,5 +1,6 @@
 import PercevalModel.Proto
 import PercevalModel.Model.C15
+import PercevalModel.Model.C15FF
 
 /-!
   Line protocol for C15 (model: `Model/C15.lean`).  Every request carries
@@ -18,6 +19,10 @@ import PercevalModel.Model.C15
   * `open`       {text}           → {open: [tag, payload] | null}
   * `bss`        {samples}        → {dict, order, dec}
   * `grid`       {n, d}           → {num, exp, mult10}
+  * `ffcp`       {m, offset, name, default:[id,size], ops:[["add",key,[id,size]]|["block"]], wire:[key…]|null}
+                 → {raised:[index of every call that raises; it is skipped], state:{max,blocked,map:[[key,id,size]]},
+                    good, enc:{name,offset,block,default,configs}, dec|null, dec_flag_first|null}
+                 `FFCircuitProvider` bookkeeping (`Model/C15FF.lean`); payloads are (id, mode count)
   A request the driver cannot parse is answered `{"err": …}`.
 -/
 
@@ -389,6 +394,41 @@ def decResJ (f : α → Json) : Option (α × St) → List (String × Json)
 
 def idCodec : Codec := ⟨id, some, fun _ => rfl⟩
 
+/-! ### feed-forward circuit providers -/
+
+abbrev FPay := Nat × Nat
+abbrev FProv := FF.Prov String FPay
+
+def payOf (j : Json) : Except String FPay :=
+  match j with
+  | .arr #[a, b] => do pure (← a.getNat?, ← b.getNat?)
+  | _ => throw "bad payload"
+
+def payJ (c : FPay) : Json := .arr #[(c.1 : Nat), (c.2 : Nat)]
+
+def ffOpOf (j : Json) : Except String (FF.Op String FPay) :=
+  match j with
+  | .arr #[.str "block"] => pure .block
+  | .arr #[.str "add", .str k, c] => do pure (.add k (← payOf c))
+  | _ => throw "bad provider call"
+
+/-- a history in which a call that raises is caught and skipped (what the harness' builder does) -/
+def runSkip (p : FProv) : List (FF.Op String FPay) → Nat → List Nat → FProv × List Nat
+  | [], _, bad => (p, bad.reverse)
+  | o :: t, i, bad =>
+    match FF.step Prod.snd p o with
+    | some p' => runSkip p' t (i + 1) bad
+    | none => runSkip p t (i + 1) (i :: bad)
+
+def provJ (p : FProv) : Json :=
+  Json.mkObj [("m", p.m), ("offset", Json.num (Lean.JsonNumber.fromInt p.offset)), ("name", p.name),
+    ("default", payJ p.default), ("max", p.maxSize), ("blocked", p.blocked),
+    ("map", listJ (fun (e : String × FPay) => Json.arr #[(e.1 : String), (e.2.1 : Nat), (e.2.2 : Nat)]) p.map)]
+
+def isGood (p : FProv) : Bool :=
+  let sizes := p.default.2 :: p.map.map (·.2.2)
+  sizes.all (· ≤ p.maxSize) && sizes.any (· == p.maxSize) && (FF.keys p.map).eraseDups.length == p.map.length
+
 def handleE (j : Json) : Except String Json := do
   let op ← strOf j "op"
   match op with
@@ -466,6 +506,26 @@ def handleE (j : Json) : Except String Json := do
     let d ← natOf j "d"
     if d = 0 then throw "zero denominator"
     pure (Json.mkObj [("num", gridNum n d), ("exp", gridExp n d), ("mult10", mult10 n d)])
+  | "ffcp" =>
+    let d ← payOf (← j.getObjVal? "default")
+    let ops ← listOf (← j.getObjVal? "ops") ffOpOf
+    let p0 : FProv := FF.Prov.new Prod.snd (← natOf j "m") (← intOf j "offset") (← strOf j "name") d
+    let (p, bad) := runSkip p0 ops 0 []
+    let wireKeys ← optField j "wire" (fun w => listOf w (·.getStr?))
+    let wire ← match wireKeys with
+      | none => pure p.map
+      | some ks =>
+        if ks.length != p.map.length then throw "wire order is not a permutation of the keys" else
+        ks.mapM fun k => match p.map.find? (·.1 == k) with
+          | some e => pure e
+          | none => throw "wire order names an unknown key"
+    let w := FF.encProv id p wire
+    let encJ := Json.mkObj [("name", w.name), ("offset", Json.num (Lean.JsonNumber.fromInt w.offset)), ("block", w.block),
+      ("default", payJ w.default),
+      ("configs", listJ (fun (e : String × FPay) => Json.arr #[(e.1 : String), (e.2.1 : Nat), (e.2.2 : Nat)]) w.configs)]
+    pure (Json.mkObj [("raised", listJ (fun (n : Nat) => (n : Json)) bad), ("state", provJ p), ("good", isGood p),
+      ("enc", encJ), ("dec", optToJ provJ (FF.decProv some Prod.snd false p.m w)),
+      ("dec_flag_first", optToJ provJ (FF.decProv some Prod.snd true p.m w))])
   | _ => throw s!"unknown op {op}"
 
 def handle (j : Json) : Json :=
